@@ -169,7 +169,7 @@ theorem running_meets_spec (e : Env) (he : GenSpec e) (hp hn : ℕ → ℕ) (hhn
       List.getLast?_eq_some_getLast h1
     exact ⟨h1, (h2 _ hL).1, fun L hL' => (h2 L hL').2⟩
   · rw [realIter_prev e he hp hn (p - 1) (by omega)]
-    obtain ⟨s', h1, h2⟩ := prevPrime_step e he s p h
+    obtain ⟨s', h1, h2⟩ := prevPrime_stepAt e he s p h
     have := Nat.findGreatest_le (P := Nat.Prime) (p - 1)
     exact ⟨s', h1, h2, by omega⟩
 
